@@ -319,9 +319,7 @@ pub fn make_module() -> KMap {
                     let value = value.clone();
 
                     let mut error = None;
-                    // Filter a copy of the data, the comparisons may run functions that access the list
-                    let mut data = l.data().clone();
-                    data.retain(|x| {
+                    l.data_mut().retain(|x| {
                         if error.is_some() {
                             return true;
                         }
@@ -347,7 +345,6 @@ pub fn make_module() -> KMap {
                     if let Some(error) = error {
                         return error;
                     }
-                    *l.data_mut() = data;
                     l
                 }
                 (instance, args) => {
@@ -377,10 +374,8 @@ pub fn make_module() -> KMap {
         match ctx.instance_and_args(is_list, expected_error)? {
             (KValue::List(l), []) => {
                 let l = l.clone();
-                // Sort a copy of the data, the comparisons may run functions that access the list
-                let mut data = l.data().clone();
+                let mut data = l.data_mut();
                 sort_values(ctx.vm, &mut data)?;
-                *l.data_mut() = data;
                 Ok(KValue::List(l.clone()))
             }
             (KValue::List(l), [f]) if f.is_callable() => {
@@ -434,14 +429,10 @@ pub fn make_module() -> KMap {
                 let l = l.clone();
                 let f = f.clone();
 
-                for index in 0..l.len() {
-                    // The function may access the list, so its data can't be borrowed during the call
-                    let Some(value) = l.data().get(index).cloned() else {
-                        break;
-                    };
-                    let result = ctx.vm.call_function(f.clone(), value)?;
-                    if let Some(value) = l.data_mut().get_mut(index) {
-                        *value = result;
+                for value in l.data_mut().iter_mut() {
+                    *value = match ctx.vm.call_function(f.clone(), value.clone()) {
+                        Ok(result) => result,
+                        Err(error) => return Err(error),
                     }
                 }
 
